@@ -25,7 +25,7 @@ func TestVerif_C20_b64(t *testing.T) {
 	s := verifh.New(t, "C20", "b64",
 		"random byte strings of length 0..40 and 250..1030 (all residues mod 3) -> StdEncoding.EncodeToString vs model encode; encodings and damaged encodings (byte replaced/inserted/deleted, padding moved, non-zero trailing bits, line breaks) -> StdEncoding.Strict().DecodeString vs model decode; non-trivial = length >= 1")
 	r := s.Rand()
-	n := verifh.N(1500, 60000)
+	n := verifh.N(4000, 100000)
 	for i := 0; i < n; i++ {
 		ln := r.Intn(41)
 		if r.Intn(10) == 0 {
@@ -93,7 +93,7 @@ func TestVerif_C20_basic(t *testing.T) {
 	s := verifh.New(t, "C20", "basic",
 		"user/password strings: plain, with colon, UTF-8, Latin-1 bytes, empty, 200..900 bytes, spaces, arbitrary bytes; all four producers must agree; recovered pair by net/http Request.BasicAuth; plus arbitrary Authorization values for the server side; non-trivial = non-empty user and password")
 	r := s.Rand()
-	n := verifh.N(1200, 40000)
+	n := verifh.N(3000, 60000)
 	for i := 0; i < n; i++ {
 		u, ku := c20Text(r, true)
 		p, kp := c20Text(r, true)
@@ -177,7 +177,7 @@ func TestVerif_C20_bearer(t *testing.T) {
 	s := verifh.New(t, "C20", "bearer",
 		"token strings: plain, colon, UTF-8, Latin-1, empty, 200..900 bytes, spaces, arbitrary bytes; request-level and client-level setter (through the header merge) must agree; oracle: value after the 7-byte scheme prefix is the token; non-trivial = non-empty token")
 	r := s.Rand()
-	n := verifh.N(1000, 30000)
+	n := verifh.N(3000, 60000)
 	for i := 0; i < n; i++ {
 		tk, k := c20Text(r, true)
 		if r.Intn(6) == 0 {
@@ -212,7 +212,7 @@ func TestVerif_C20_parse(t *testing.T) {
 	s := verifh.New(t, "C20", "parse",
 		"challenge texts: 50% grammatical RFC 7616 challenges (algorithms x qop forms x opaque x userhash x domain/stale/charset/unknown parameters; random order, token/quoted form, OWS incl. Unicode and ASCII control white space, BWS, quoted commas, quoted-pairs, scheme case, outer white space), 25% byte-damaged ones, 25% junk (other schemes, truncations, arbitrary bytes); answer = the 8 parsed fields or the error kind; non-trivial = parsed ok with realm and nonce, or a named error")
 	r := s.Rand()
-	n := verifh.N(6000, 300000)
+	n := verifh.N(20000, 500000)
 	cnt := map[string]int{}
 	count := func(k string) { cnt[k]++; s.Count(k) }
 	must := []string{"grammatical", "damaged", "junk", "tag:unicode-ws", "tag:ascii-ws", "tag:outer-ws", "tag:bws", "tag:quoted-comma", "tag:quoted-pair",
@@ -281,7 +281,7 @@ func TestVerif_C20_auth(t *testing.T) {
 	r := s.Rand()
 	methods := []string{"GET", "POST", "PUT", "DELETE", "PATCH", "HEAD", "OPTIONS", "", "get", "M-SEARCH"}
 	uris := []string{"/", "/dir/index.html", "/a/b?x=1&y=2", "/p?q=a%20b", "/?", "/a;b?c=d,e", "*", "", "/x?y=\"q\"", "/ü", "/path with space", "/a?b=c:d"}
-	n := verifh.N(5000, 200000)
+	n := verifh.N(15000, 300000)
 	known := map[string]int{}
 	for i := 0; i < n; i++ {
 		var ch *challenge
@@ -497,7 +497,7 @@ func TestVerif_C20_specverify(t *testing.T) {
 	restore, _ := c20InstallIdentity()
 	defer restore()
 	r := s.Rand()
-	n := verifh.N(2500, 80000)
+	n := verifh.N(4000, 100000)
 	for i := 0; i < n; i++ {
 		g := c20GenChallenge(r, false)
 		ch, err := parseChallenge(g.raw)
